@@ -32,9 +32,9 @@ def _calc_overlapping_labels(
     # overlapping_indices = [(i % (max_ref), i // (max_ref)) for i in np.unique(overlap_arr) if i > max_ref]
     # instance_pairs = [(reference_arr, prediction_arr, i, j) for i, j in overlapping_indices]
 
-    # (ref, pred)
+    # (ref, pred); decoded in python ints (np.uint64 % int is float64 arithmetic in numpy 1.x, inexact beyond 2**53)
     return [
-        (int(i % (max_ref)), int(i // (max_ref)))
+        (int(i) % max_ref, int(i) // max_ref)
         for i in np.unique(overlap_arr)
         if i > max_ref
     ]
